@@ -1390,17 +1390,15 @@ impl TextSelectionSet {
         if self.is_empty() {
             None
         } else {
-            if self.sorted {
-                self.data.get(self.data.len() - 1)
-            } else {
-                let mut rightmost: Option<&TextSelection> = None;
-                for item in self.iter() {
-                    if rightmost.is_none() || item.end > rightmost.unwrap().end {
-                        rightmost = Some(item);
-                    }
+            //note: the last item of a sorted set is not necessarily the rightmost one
+            //      (sorting is by begin first, a nested item sorts after the item that embeds it)
+            let mut rightmost: Option<&TextSelection> = None;
+            for item in self.iter() {
+                if rightmost.is_none() || item.end > rightmost.unwrap().end {
+                    rightmost = Some(item);
                 }
-                rightmost
             }
+            rightmost
         }
     }
 
